@@ -2,22 +2,50 @@
 
 Every fragment geometry of the alphabet is built on a known reference with a known cut coordinate,
 once on the forward strand and once as its exact mirror image on the reverse-complemented
-reference.  Oracle: simulator truth (site, strand, validity) + the mirror relation.
-"""
-import itertools
+reference.  Oracle: simulator truth (site, strand, validity) + the mirror relation, observed on the
+tags and qc-fail bit of BOTH mates, on the fragment attributes and on fragment equality (dedup).
 
-from gen.reads import header, make_read, revcomp, debruijn_like
+kinds of cases
+  nla      NlaIIIFragment, motif inside the read (overhang mode)
+  nlaref   NlaIIIFragment(no_overhang=True, reference=<FastaFile>): motif in the reference next to the read
+  r1less   fragments without a usable R1 (R2 only / R1 unmapped), both fragment classes
+  chic     CHICFragment
+  dedup    pairs of fragments: copies of one cut must be equal, and the equality relation of any two
+           fragments must be the same in both orientations
+"""
+import atexit
+import itertools
+import os
+import shutil
+import tempfile
+
+from gen.reads import header, make_read, debruijn_like
 
 ID = 'C09'
-RULE = ('full product of strand x single/paired x soft-clip 0..6 x motif variant (exact, every single-base substitution '
-        'incl. N, one-cycle shift, motif on the wrong end, two decoys) x allow_cycle_shift x check_motif x invert_strand x '
-        'no_umi_cigar_processing for NlaIII; trimmed/untrimmed x strand x clip x R2 arrangement x invert_strand for CHIC; '
-        'non-trivial = clipped or non-exact motif or unusual R2 arrangement (every case is executed on both strands); states = distinct (geometry, options) cases')
+RULE = ('NlaIII: full product of strand x R2 arrangement (none, proper, unmapped, same-strand) x clip at the read start (0..6S, 2H) x '
+        'read tail (plain, 1S, 3S, 2H, 1I, 2D) x motif variant (exact, every single-base substitution incl. N, cycle shift -1/+1/+2, '
+        'motif on the wrong end, two decoys) x allow_cycle_shift x check_motif x invert_strand x no_umi_cigar_processing x reference handle given, '
+        'site at 50 and at contig coordinate 0 (mirror: last bases); '
+        'no_overhang mode on an indexed FASTA: motif in the reference (exact, soft-masked lower/mixed case, every substitution, absent, behind the far end) x '
+        'gap -1..4 x clip 0..4 x site at 50 / 0 / 2 (scan window leaves the contig) x R2 x invert_strand; '
+        'fragments without R1 (absent / unmapped) x R2 arrangement for both classes; '
+        'CHIC: trimmed/untrimmed x MX value x lh tag present/absent x strand x clip x tail x R2 arrangement x invert_strand x no_umi_cigar_processing; '
+        'dedup: all pairs of a family of fragments (two cuts 1 bp apart x both strands x clip/tail shapes x single/paired x motif variant / layout) '
+        'compared with == in both orders and both orientations; '
+        'observed: DS, RS, RZ and qc-fail of every read of the fragment, site_location, strand, cut_site_strand, match_hash, ==; '
+        'non-trivial = clipped or non-plain tail or non-exact motif or unusual R2 arrangement or a new kind (every case is executed on both strands); '
+        'states = distinct (geometry, options) cases')
 ASSUMPTIONS = [
     'reads are given in BAM orientation (reverse-strand reads reverse-complemented), as produced by an aligner',
     'check_motif=False is only combined with full-length motif geometries (nothing is "recognised" otherwise)',
-    'no_umi_cigar_processing=True is only combined with unclipped reads (the option disables the clip correction by design)',
-    'no_overhang mode (motif outside the read, needs a reference handle) is not covered',
+    'no_umi_cigar_processing=True is only combined with reads not clipped at their start (the option disables the clip correction by design)',
+    'a hard clip at the read START removes the motif / overhang from the record: only the mirror relation and the absence of exceptions are checked there',
+    'validity of mis-oriented pairs (R2 on the same strand) is left open: if such a fragment is accepted its site must be right, if not it must carry no site',
+    'cycle shifts the code does not claim to rescue (-1, +2) are left open in the same way',
+    'no_overhang mode: acceptance is demanded only when the CATG is directly adjacent to an unclipped read start; for gaps / clips the '
+    'fragment may be rejected, but an accepted one must carry the coordinate of the real CATG; RZ is not checked there',
+    'CHIC fragments without R1 are left open (mirror relation only); NlaIII fragments without R1 cannot show the motif at their start and must be rejected',
+    'soft-masked (lower-case) reference bases are the same bases (FASTA convention, every other reference access of the package upper-cases)',
 ]
 
 L = 120
@@ -25,15 +53,96 @@ SITE = 50            # default forward-reference coordinate of the C of CATG (Nl
 RLEN = 20
 FRAG = 56
 BG = debruijn_like(400, avoid=('CATG', 'ATG', 'CAT'))
+_COMP = str.maketrans('ACGTNacgtn', 'TGCANtgcan')
+
+START_CLIPS = [('S', k) for k in range(0, 7)] + [('H', 2)]
+TAILS = ('none', 'S1', 'S3', 'H2', 'I1', 'D2')
+INDEL_AT = 12        # query offset of the insertion / deletion letters (behind the longest start clip and the motif)
+
+
+def revcomp(s):
+    return s.translate(_COMP)[::-1]
 
 
 def bounds(tier):
-    return {'clips': list(range(0, 7)), 'read_length': RLEN, 'contig_length': L,
-            'nla_variants': 'exact + 16 substitutions + shift + wrongend + decoy_TCAT + decoy_GCAT',
-            'chic': 'trimmed/untrimmed x R2 in {none, proper, same-strand, unmapped}',
-            'tiers': 'quick == thorough (the space is small and fully enumerated)'}
+    return {'start_clips': ['%d%s' % (k, op) for op, k in START_CLIPS], 'tails': list(TAILS), 'read_length': RLEN, 'contig_length': L,
+            'nla_variants': 'exact + 16 substitutions + shift(+1) + shiftm1 + shift2 + wrongend + decoy_TCAT + decoy_GCAT',
+            'nla_r2': 'none, proper, unmapped, same-strand',
+            'nla_sites': [50, 0],
+            'nlaref': 'motif in reference: exact, lower, mixed, 16 substitutions, absent, farend; gap -1..4; clip 0..4; site 50/0/2; read on coordinate 0',
+            'r1less': 'R1 absent / unmapped x R2 forward-with-CATG / reverse / unmapped, NlaIII and CHIC',
+            'chic': 'trimmed/untrimmed x 3 MX values x lh present/absent x R2 in {none, proper, same-strand, unmapped}',
+            'dedup': 'family of %d (NlaIII) / %d (CHIC) fragments per configuration, all unordered pairs incl. twins' % (
+                len(list(dedup_members('nla', True))), len(list(dedup_members('chic', False)))),
+            'tiers': 'quick: substitution and decoy variants only with a plain tail and R2 none/proper; thorough: full product'}
 
 
+# ---------------------------------------------------------------- reference files (no_overhang mode, reference option)
+_REF = {'dir': None, 'pid': None, 'handles': {}}
+
+
+def nlaref_layouts():
+    """name -> forward contig sequence (length L)"""
+    out = {}
+    plain = BG[:L]
+    out['chr1'] = plain[:SITE] + 'CATG' + plain[SITE + 4:]          # the reference the overhang-mode reads at site 50 come from
+    out['absent_-4'] = plain                                       # a read starting on coordinate 0: nothing in front of it
+    for vname, motif in nlaref_variants():
+        for pos in (50, 0, 2):
+            if vname == 'absent':
+                seq = plain
+            elif vname == 'farend':
+                # the only CATG lies directly BEHIND the far end of a read starting at pos+4
+                p = pos + 4 + RLEN
+                seq = plain[:p] + 'CATG' + plain[p + 4:]
+            else:
+                seq = plain[:pos] + motif + plain[pos + 4:]
+            out[f'{vname}_{pos}'] = seq
+    return out
+
+
+def nlaref_variants():
+    v = [('exact', 'CATG'), ('lower', 'catg'), ('mixed', 'CAtg')]
+    for i in range(4):
+        for b in 'ACGTN':
+            if b != 'CATG'[i]:
+                v.append((f'subst{i}{b}', 'CATG'[:i] + b + 'CATG'[i + 1:]))
+    v.append(('absent', None))
+    v.append(('farend', None))
+    return v
+
+
+def setup():
+    """write the two FASTA files (forward references and their reverse complements, same contig names)"""
+    if _REF['dir'] is not None and os.path.isdir(_REF['dir']):
+        return
+    import pysam
+    d = tempfile.mkdtemp(prefix='c09_', dir='/dev/shm' if os.path.isdir('/dev/shm') else None)
+    lay = nlaref_layouts()
+    for fn, f in (('fwd.fa', lambda s: s), ('rc.fa', revcomp)):
+        with open(os.path.join(d, fn), 'w') as h:
+            for name in sorted(lay):
+                h.write(f'>{name}\n{f(lay[name])}\n')
+        pysam.faidx(os.path.join(d, fn))
+    _REF['dir'], _REF['pid'] = d, os.getpid()
+    atexit.register(_cleanup, d, os.getpid())
+
+
+def _cleanup(d, pid):
+    if os.getpid() == pid:
+        shutil.rmtree(d, ignore_errors=True)
+
+
+def ref_handle(strand):
+    import pysam
+    setup()
+    key = (os.getpid(), strand)
+    if key not in _REF['handles']:
+        _REF['handles'][key] = pysam.FastaFile(os.path.join(_REF['dir'], 'fwd.fa' if strand == 'forward' else 'rc.fa'))
+    return _REF['handles'][key]
+
+
+# ---------------------------------------------------------------- read construction
 def nla_variants():
     v = [('exact', 'CATG')]
     for i in range(4):
@@ -44,7 +153,58 @@ def nla_variants():
     v.append(('wrongend', None))
     v.append(('decoy_TCAT', 'TCAT'))
     v.append(('decoy_GCAT', 'GCAT'))
+    v.append(('shiftm1', 'TCATG'))
+    v.append(('shift2', 'TG'))
     return v
+
+
+SHIFTED = ('shift', 'shiftm1', 'shift2')
+
+
+def r1_spec(seq, start_ref, sclip, tail):
+    """Forward-strand R1 whose first sequenced base lies on reference coordinate start_ref.
+    sclip = (op, k): k bases at the read start soft ('S') or hard ('H') clipped; tail: what happens behind."""
+    op, k = sclip
+    qual = ''.join(chr(40 + i) for i in range(len(seq)))
+    cig = []
+    if k:
+        cig.append((op, k))
+        if op == 'H':
+            seq, qual = seq[k:], qual[k:]
+    n = RLEN - k                     # bases behind the clip
+    if tail == 'none':
+        cig.append(('M', n))
+    elif tail in ('S1', 'S3'):
+        t = int(tail[1])
+        cig += [('M', n - t), ('S', t)]
+    elif tail == 'H2':
+        cig += [('M', n - 2), ('H', 2)]
+        seq, qual = seq[:-2], qual[:-2]
+    elif tail == 'I1':
+        a = INDEL_AT - k
+        cig += [('M', a), ('I', 1), ('M', n - a - 1)]
+    elif tail == 'D2':
+        a = INDEL_AT - k
+        cig += [('M', a), ('D', 2), ('M', n - a)]
+    else:
+        raise ValueError(tail)
+    return {'seq': seq, 'qual': qual, 'pos': start_ref + k, 'cigar': cig, 'reverse': False, 'unmapped': False}
+
+
+def r2_spec(r2mode, site, r1):
+    qual = ''.join(chr(40 + i) for i in range(RLEN))
+    if r2mode == 'none':
+        return None
+    if r2mode == 'proper':
+        return {'seq': BG[100:100 + RLEN], 'qual': qual, 'pos': site + FRAG - RLEN, 'cigar': [('M', RLEN)],
+                'reverse': True, 'unmapped': False}
+    if r2mode == 'same-strand':
+        return {'seq': BG[100:100 + RLEN], 'qual': qual, 'pos': site + FRAG - RLEN, 'cigar': [('M', RLEN)],
+                'reverse': False, 'unmapped': False}
+    if r2mode == 'unmapped':
+        return {'seq': BG[100:100 + RLEN], 'qual': qual, 'pos': r1['pos'], 'cigar': [], 'reverse': False,
+                'unmapped': True}
+    raise ValueError(r2mode)
 
 
 def mirror_read(spec):
@@ -53,9 +213,9 @@ def mirror_read(spec):
         return None
     m = dict(spec)
     if spec['unmapped']:
-        m['seq'] = spec['seq']
+        # an unmapped read is stored as sequenced; it is placed on its mate's coordinate (set by the caller)
         return m
-    ref_len = sum(l for op, l in spec['cigar'] if op == 'M')
+    ref_len = sum(l for op, l in spec['cigar'] if op in 'MD')
     m['seq'] = revcomp(spec['seq'])
     m['qual'] = spec['qual'][::-1]
     m['pos'] = L - (spec['pos'] + ref_len)
@@ -64,12 +224,20 @@ def mirror_read(spec):
     return m
 
 
+def mirror_pair(specs):
+    m = [mirror_read(s) for s in specs]
+    for i in (0, 1):
+        if m[i] is not None and m[i]['unmapped'] and m[1 - i] is not None and not m[1 - i]['unmapped']:
+            m[i] = dict(m[i], pos=m[1 - i]['pos'])
+    return tuple(m)
+
+
 def cigar_str(c):
     return ''.join(f'{l}{op}' for op, l in c)
 
 
-def build_pair(specs, tags_r1):
-    hdr = header([('chr1', L)])
+def build_pair(specs, tags_r1, contig='chr1'):
+    hdr = header([(contig, L)])
     s1, s2 = specs
     reads = []
     for i, s in enumerate((s1, s2)):
@@ -79,191 +247,381 @@ def build_pair(specs, tags_r1):
         other = specs[1 - i]
         mate = None
         if other is not None:
-            mate = ('chr1', other['pos'], other['reverse'], other['unmapped'])
+            mate = (contig, other['pos'], other['reverse'], other['unmapped'])
         tags = {'SM': 'LIB_1', 'RX': 'ACG', 'BC': 'AAAA', 'bi': 1, 'MQ': 60}
         tags.update(tags_r1)
-        r = make_read(hdr, 'frag', s['seq'], 'chr1', s['pos'], cigar_str(s['cigar']), reverse=s['reverse'],
+        r = make_read(hdr, 'frag', s['seq'], contig, s['pos'], cigar_str(s['cigar']), reverse=s['reverse'],
                       read1=(i == 0), paired=(other is not None), mate=mate, qual=s['qual'], tags=tags,
                       unmapped=s['unmapped'], proper=(other is not None and s['reverse'] != other['reverse']))
         reads.append(r)
     return reads
 
 
-# ---------------------------------------------------------------- NlaIII
-def nla_forward_specs(variant, motif, clip, r2mode, SITE=50):
-    """Fragment on the forward strand whose restriction site C is at SITE."""
-    if variant == 'shift':
-        start = SITE + 1                      # first base of the motif was lost
-        seq = 'ATG' + BG[10:10 + RLEN - 3]
-    elif variant == 'wrongend':
-        start = SITE
-        seq = BG[10:10 + RLEN - 4] + 'CATG'
-    else:
-        start = SITE
-        seq = motif + BG[10:10 + RLEN - 4]
-    qual = ''.join(chr(40 + i) for i in range(RLEN))
-    cig = [('M', RLEN)] if clip == 0 else [('S', clip), ('M', RLEN - clip)]
-    s1 = {'seq': seq, 'qual': qual, 'pos': start + clip, 'cigar': cig, 'reverse': False, 'unmapped': False}
-    if r2mode == 'none':
-        s2 = None
-    else:
-        s2 = {'seq': BG[100:100 + RLEN], 'qual': qual, 'pos': SITE + FRAG - RLEN, 'cigar': [('M', RLEN)],
-              'reverse': True, 'unmapped': False}
-    return s1, s2
-
-
-def nla_cases():
-    for (variant, motif), clip, r2mode, acs, cm, inv, nocig in itertools.product(
-            nla_variants(), range(0, 7), ('none', 'proper'), (False, True), (True, False), (False, True), (False, True)):
-        if not cm and variant in ('shift',):
-            continue
-        if nocig and clip > 0:
-            continue
-        for site in (50, 0):       # 0: the motif sits on the very first bases of the contig (its mirror: on the very last)
-            if site == 0 and (inv or nocig or not cm):
-                continue
-            yield {'kind': 'nla', 'variant': variant, 'motif': motif, 'clip': clip, 'r2': r2mode, 'allow_cycle_shift': acs,
-                   'check_motif': cm, 'invert_strand': inv, 'no_umi_cigar_processing': nocig, 'site': site}
-
-
-def nla_expect(case):
-    v = case['variant']
-    if not case['check_motif']:
-        return True      # every full-length geometry is accepted, site = read start
-    if v == 'exact':
-        return True
-    if v == 'shift':
-        return bool(case['allow_cycle_shift'])
-    return False
+# ---------------------------------------------------------------- observation
+def _tag(r, t):
+    return r.get_tag(t) if r.has_tag(t) else None
 
 
 def observe(frag):
-    r1 = frag.reads[0]
+    reads = list(frag.reads)
     try:
         valid = bool(frag.is_valid())
     except Exception as ex:
         return {'exception': f'is_valid:{type(ex).__name__}'}
-    o = {'valid': valid,
-         'DS': r1.get_tag('DS') if r1.has_tag('DS') else None,
-         'RS': r1.get_tag('RS') if r1.has_tag('RS') else None,
-         'RZ': r1.get_tag('RZ') if r1.has_tag('RZ') else None}
+    o = {'valid': valid}
+    per = []
+    for r in reads:
+        per.append(None if r is None else {'DS': _tag(r, 'DS'), 'RS': _tag(r, 'RS'), 'RZ': _tag(r, 'RZ')})
+    first = next(p for p in per if p is not None)
+    o.update(first)              # DS / RS / RZ of the first read of the fragment (R1 when present)
+    o['reads'] = per
+    sl = getattr(frag, 'site_location', None)
+    o['site_location'] = list(sl) if sl is not None else None
+    o['strand'] = getattr(frag, 'strand', None)
+    o['cut_site_strand'] = getattr(frag, 'cut_site_strand', None)
+    mh = getattr(frag, 'match_hash', None)
+    o['match_hash'] = list(mh) if mh is not None else None
     try:
         frag.write_tags()
     except Exception as ex:
         o['exception'] = f'write_tags:{type(ex).__name__}'
-    o['qcfail'] = bool(r1.is_qcfail)
-    o['DS_after'] = r1.get_tag('DS') if r1.has_tag('DS') else None
+    o['qcfail_reads'] = [None if r is None else bool(r.is_qcfail) for r in reads]
+    o['qcfail'] = bool(next(r for r in reads if r is not None).is_qcfail)
+    o['DS_after_reads'] = [None if r is None else _tag(r, 'DS') for r in reads]
+    o['DS_after'] = next(_tag(r, 'DS') for r in reads if r is not None)
     return o
+
+
+def judge(pre, o, want, want_site, want_rs, want_rz=None, contig='chr1', check_site_location=True):
+    """want in accept / reject / either / open; returns list of (signature, detail)"""
+    out = []
+    if want == 'open':
+        return out
+    valid = o['valid']
+    if want == 'accept' and not valid:
+        return [(f'{pre}:fragment-with-motif-rejected', o)]
+    if want == 'reject' and valid:
+        out.append((f'{pre}:fragment-without-motif-accepted', o))
+    present = [p for p in o['reads'] if p is not None]
+    if valid and want in ('accept', 'either'):
+        if o['DS'] != want_site:
+            out.append((f'{pre}:wrong-site-coordinate', {'obs': o, 'want_DS': want_site}))
+        elif any(p['DS'] != want_site for p in present) or any(d != want_site for d in o['DS_after_reads'] if d is not None) \
+                or any(d is None for r, d in zip(o['reads'], o['DS_after_reads']) if r is not None):
+            out.append((f'{pre}:site-tag-differs-between-mates', {'obs': o, 'want_DS': want_site}))
+        if o['RS'] is None or bool(o['RS']) != want_rs:
+            out.append((f'{pre}:wrong-strand-tag', {'obs': o, 'want_RS': want_rs}))
+        elif any(p['RS'] is None or bool(p['RS']) != want_rs for p in present):
+            out.append((f'{pre}:strand-tag-differs-between-mates', {'obs': o, 'want_RS': want_rs}))
+        if want_rz is not None:
+            if o['RZ'] != want_rz:
+                out.append((f'{pre}:wrong-recognised-sequence', o))
+            elif any(p['RZ'] != want_rz for p in present):
+                out.append((f'{pre}:recognised-sequence-differs-between-mates', o))
+        if o['qcfail']:
+            out.append((f'{pre}:valid-fragment-flagged-qcfail', o))
+        elif any(q for q in o['qcfail_reads'] if q is not None):
+            out.append((f'{pre}:valid-fragment-mate-flagged-qcfail', o))
+        if check_site_location and o['site_location'] != [contig, want_site]:
+            out.append((f'{pre}:site_location-attribute-differs-from-site', {'obs': o, 'want': [contig, want_site]}))
+    if not valid and want in ('reject', 'either'):
+        if o['DS'] is not None or o['DS_after'] is not None:
+            out.append((f'{pre}:rejected-fragment-assigned-a-site', o))
+        elif any(p['DS'] is not None for p in present) or any(d is not None for d in o['DS_after_reads']):
+            out.append((f'{pre}:rejected-fragment-mate-assigned-a-site', o))
+        if not o['qcfail']:
+            out.append((f'{pre}:rejected-fragment-not-flagged-qcfail', o))
+        elif not all(q for q in o['qcfail_reads'] if q is not None):
+            out.append((f'{pre}:rejected-fragment-mate-not-flagged-qcfail', o))
+    return out
+
+
+def mirror_judge(kind, obs, site_span):
+    """the mirror relation, independent of the truth table; site_span = 4 (NlaIII: site is the first of 4 bases) or 1"""
+    out = []
+    f, r = obs['forward'], obs['reverse']
+    if 'exception' in f or 'exception' in r:
+        if ('exception' in f) != ('exception' in r):
+            out.append((f'{kind}:mirror:exception-on-one-strand-only', obs))
+        return out
+    if f['valid'] != r['valid']:
+        out.append((f'{kind}:mirror:validity-differs-between-strands', obs))
+        return out
+    if f['valid'] and f['DS'] is not None and r['DS'] is not None and r['DS'] != L - site_span - f['DS']:
+        out.append((f'{kind}:mirror:site-not-mirrored', obs))
+    if (f['DS'] is None) != (r['DS'] is None) or (f['DS_after'] is None) != (r['DS_after'] is None):
+        out.append((f'{kind}:mirror:site-assigned-on-one-strand-only', obs))
+    if f['valid']:
+        if f['RS'] is not None and r['RS'] is not None and bool(f['RS']) == bool(r['RS']):
+            out.append((f'{kind}:mirror:strand-tag-not-mirrored', obs))
+        if f['cut_site_strand'] is not None and r['cut_site_strand'] is not None and \
+                bool(f['cut_site_strand']) == bool(r['cut_site_strand']):
+            out.append((f'{kind}:mirror:cut_site_strand-not-mirrored', obs))
+        if f['strand'] is not None and r['strand'] is not None and bool(f['strand']) == bool(r['strand']):
+            out.append((f'{kind}:mirror:strand-attribute-not-mirrored', obs))
+        fs, rs = f['site_location'], r['site_location']
+        if (fs is None) != (rs is None) or (fs is not None and rs[1] != L - site_span - fs[1]):
+            out.append((f'{kind}:mirror:site_location-not-mirrored', obs))
+    if (f['match_hash'] is None) != (r['match_hash'] is None):
+        out.append((f'{kind}:mirror:match_hash-on-one-strand-only', obs))
+    if f['qcfail_reads'] != r['qcfail_reads']:
+        out.append((f'{kind}:mirror:qcfail-differs-between-strands', obs))
+    return out
+
+
+def exc_sig(pre, o):
+    p = o['exception'].split(':')
+    return f'{pre}:exception:{p[0]}:{p[1]}'
+
+
+def clip_class(case):
+    op, k = case['sclip']
+    return 'hardclipped' if (k and op == 'H') else ('clipped' if k else 'unclipped')
+
+
+# ---------------------------------------------------------------- NlaIII, motif inside the read
+def nla_forward_specs(case):
+    variant, motif, site = case['variant'], case['motif'], case['site']
+    if variant == 'shift':
+        start = site + 1                      # first base of the motif was lost
+        seq = 'ATG' + BG[10:10 + RLEN - 3]
+    elif variant == 'shift2':
+        start = site + 2                      # first two bases lost
+        seq = 'TG' + BG[10:10 + RLEN - 2]
+    elif variant == 'shiftm1':
+        start = site - 1                      # one extra base in front of the motif
+        seq = 'TCATG' + BG[10:10 + RLEN - 5]
+    elif variant == 'wrongend':
+        start = site
+        seq = BG[10:10 + RLEN - 4] + 'CATG'
+    else:
+        start = site
+        seq = motif + BG[10:10 + RLEN - 4]
+    s1 = r1_spec(seq, start, tuple(case['sclip']), case['tail'])
+    return s1, r2_spec(case['r2'], site, s1)
+
+
+def nla_cases(tier):
+    slim = ('exact',) + SHIFTED + ('wrongend',)
+    for (variant, motif), sclip, tail, r2mode, acs, cm, inv, nocig in itertools.product(
+            nla_variants(), START_CLIPS, TAILS, ('none', 'proper', 'unmapped', 'same-strand'),
+            (False, True), (True, False), (False, True), (False, True)):
+        if not cm and variant in SHIFTED:
+            continue
+        if nocig and sclip[1] > 0:
+            continue
+        if tier == 'quick' and variant not in slim and (tail != 'none' or r2mode not in ('none', 'proper') or sclip[0] == 'H'):
+            continue
+        for site in (50, 0):       # 0: the motif sits on the very first bases of the contig (its mirror: on the very last)
+            if site == 0 and (inv or nocig or not cm or variant == 'shiftm1'):
+                continue
+            for ref in (False, True):
+                if ref and (site == 0 or inv or nocig or not cm or variant not in slim):
+                    continue
+                yield {'kind': 'nla', 'variant': variant, 'motif': motif, 'sclip': list(sclip), 'tail': tail, 'r2': r2mode,
+                       'allow_cycle_shift': acs, 'check_motif': cm, 'invert_strand': inv, 'no_umi_cigar_processing': nocig,
+                       'site': site, 'reference': ref}
+
+
+def nla_expect(case):
+    v = case['variant']
+    if case['sclip'][0] == 'H' and case['sclip'][1] > 0:
+        return 'open'
+    if not case['check_motif']:
+        base = 'accept'      # every full-length geometry is accepted, site = read start
+    elif v == 'exact':
+        base = 'accept'
+    elif v == 'shift':
+        base = 'accept' if case['allow_cycle_shift'] else 'reject'
+    elif v in ('shiftm1', 'shift2'):
+        base = 'either'
+    else:
+        base = 'reject'
+    if case['r2'] == 'same-strand' and base == 'accept':
+        return 'either'
+    return base
+
+
+def vclass_of(variant):
+    if variant in ('exact', 'wrongend') + SHIFTED:
+        return variant
+    return 'substitution' if variant.startswith('subst') else 'decoy'
 
 
 def run_nla(case):
     from singlecellmultiomics.fragment import NlaIIIFragment
     out = []
-    SITE = case.get('site', 50)
-    fwd = nla_forward_specs(case['variant'], case['motif'], case['clip'], case['r2'], SITE)
+    site = case['site']
+    fwd = nla_forward_specs(case)
     obs = {}
-    for strand, specs in (('forward', fwd), ('reverse', tuple(mirror_read(s) for s in fwd))):
+    want = nla_expect(case)
+    for strand, specs in (('forward', fwd), ('reverse', mirror_pair(fwd))):
         reads = build_pair(specs, {})
+        kw = {}
+        if case['reference']:
+            kw['reference'] = ref_handle(strand)
         try:
             frag = NlaIIIFragment(reads, allow_cycle_shift=case['allow_cycle_shift'], check_motif=case['check_motif'],
                                   invert_strand=case['invert_strand'],
-                                  no_umi_cigar_processing=case['no_umi_cigar_processing'])
+                                  no_umi_cigar_processing=case['no_umi_cigar_processing'], **kw)
             o = observe(frag)
         except Exception as ex:
             o = {'exception': f'constructor:{type(ex).__name__}:{ex}'}
         obs[strand] = o
-        cls = 'clipped' if case['clip'] else 'unclipped'
-        vclass = case['variant'] if case['variant'] in ('exact', 'shift', 'wrongend') else (
-            'substitution' if case['variant'].startswith('subst') else 'decoy')
-        pre = f'nla:{strand}:{vclass}:{cls}'
+        pre = f"nla:{strand}:{vclass_of(case['variant'])}:{clip_class(case)}"
         if 'exception' in o:
-            out.append((f'{pre}:exception:{o["exception"].split(":")[0]}:{o["exception"].split(":")[1]}', o))
+            out.append((exc_sig(pre, o), o))
             continue
-        want_valid = nla_expect(case)
-        want_site = SITE if strand == 'forward' else L - 4 - SITE
+        want_site = site if strand == 'forward' else L - 4 - site
         want_rs = (strand == 'reverse') != case['invert_strand']
-        if want_valid:
-            if not o['valid']:
-                out.append((f'{pre}:fragment-with-motif-rejected', o))
+        want_rz = 'CATG' if (case['variant'] == 'exact' and case['check_motif']) else None
+        out += judge(pre, o, want, want_site, want_rs, want_rz)
+    out += mirror_judge('nla', obs, 4)
+    return out, obs
+
+
+# ---------------------------------------------------------------- NlaIII, motif outside the read (no_overhang)
+def nlaref_cases(tier):
+    for (variant, _m), pos, gap, clip, r2mode, inv in itertools.product(
+            nlaref_variants(), (50, 0, 2), (0, 1, 2, 3, 4, -1), range(0, 5), ('none', 'proper'), (False, True)):
+        if variant not in ('exact', 'lower', 'mixed') and (gap != 0 or clip != 0):
+            continue
+        if variant == 'absent' and pos == 0:
+            yield {'kind': 'nlaref', 'variant': variant, 'pos': -4, 'gap': gap, 'clip': clip, 'r2': r2mode, 'invert_strand': inv}
+        yield {'kind': 'nlaref', 'variant': variant, 'pos': pos, 'gap': gap, 'clip': clip, 'r2': r2mode, 'invert_strand': inv}
+
+
+def nlaref_expect(case):
+    if case['variant'] in ('exact', 'lower', 'mixed'):
+        return 'accept' if (case['gap'] == 0 and case['clip'] == 0) else 'either'
+    return 'reject'
+
+
+def run_nlaref(case):
+    from singlecellmultiomics.fragment import NlaIIIFragment
+    out = []
+    contig = f"{case['variant']}_{case['pos']}"
+    refseq = nlaref_layouts()[contig]
+    start = case['pos'] + 4 + case['gap']        # reference coordinate of the first sequenced base
+    seq = refseq[start:start + RLEN].upper()
+    s1 = r1_spec(seq, start, ('S', case['clip']), 'none')
+    fwd = (s1, r2_spec(case['r2'], case['pos'], s1))
+    obs = {}
+    want = nlaref_expect(case)
+    vclass = case['variant'] if not case['variant'].startswith('subst') else 'substitution'
+    place = 'mid' if case['pos'] == 50 else 'contig-edge'      # -4, 0, 2: the scan window touches / leaves the contig
+    for strand, specs in (('forward', fwd), ('reverse', mirror_pair(fwd))):
+        reads = build_pair(specs, {}, contig=contig)
+        try:
+            frag = NlaIIIFragment(reads, no_overhang=True, reference=ref_handle(strand), invert_strand=case['invert_strand'])
+            o = observe(frag)
+        except Exception as ex:
+            o = {'exception': f'constructor:{type(ex).__name__}:{ex}'}
+        obs[strand] = o
+        pre = f'nlaref:{strand}:{vclass}:{place}'
+        if 'exception' in o:
+            out.append((exc_sig(pre, o), o))
+            continue
+        want_site = case['pos'] if strand == 'forward' else L - 4 - case['pos']
+        want_rs = (strand == 'reverse') != case['invert_strand']
+        out += judge(pre, o, want, want_site, want_rs, None, contig=contig)
+    out += mirror_judge('nlaref', obs, 4)
+    return out, obs
+
+
+# ---------------------------------------------------------------- fragments without a usable R1
+def r1less_cases(tier):
+    for cls, r1, r2, inv, acs, mx in itertools.product(('nla', 'chic'), ('absent', 'unmapped'),
+                                                       ('forward-CATG', 'reverse', 'unmapped'), (False, True), (False, True),
+                                                       (None, 'scCHIC384C8U3')):
+        if cls == 'nla' and mx is not None:
+            continue
+        if cls == 'chic' and acs:
+            continue
+        if r1 == 'absent' and r2 == 'unmapped':
+            continue      # nothing mapped and no mate to sit on: not a fragment of a coordinate sorted file
+        yield {'kind': 'r1less', 'cls': cls, 'r1': r1, 'r2': r2, 'invert_strand': inv, 'allow_cycle_shift': acs, 'MX': mx}
+
+
+def run_r1less(case):
+    from singlecellmultiomics.fragment import NlaIIIFragment, CHICFragment
+    out = []
+    qual = ''.join(chr(40 + i) for i in range(RLEN))
+    if case['r2'] == 'forward-CATG':     # R2 looks exactly like a perfect R1 (tempting to use it instead)
+        s2 = {'seq': 'CATG' + BG[10:10 + RLEN - 4], 'qual': qual, 'pos': SITE, 'cigar': [('M', RLEN)], 'reverse': False, 'unmapped': False}
+    elif case['r2'] == 'reverse':
+        s2 = {'seq': BG[100:100 + RLEN - 4] + 'CATG', 'qual': qual, 'pos': SITE, 'cigar': [('M', RLEN)], 'reverse': True, 'unmapped': False}
+    else:
+        s2 = {'seq': BG[100:100 + RLEN], 'qual': qual, 'pos': SITE, 'cigar': [], 'reverse': False, 'unmapped': True}
+    s1 = None if case['r1'] == 'absent' else {'seq': 'CATG' + BG[30:30 + RLEN - 4], 'qual': qual, 'pos': s2['pos'], 'cigar': [],
+                                              'reverse': False, 'unmapped': True}
+    fwd = (s1, s2)
+    obs = {}
+    tags = {'lh': 'TA'}
+    if case['MX'] is not None:
+        tags['MX'] = case['MX']
+    for strand, specs in (('forward', fwd), ('reverse', mirror_pair(fwd))):
+        reads = build_pair(specs, tags if case['cls'] == 'chic' else {})
+        try:
+            if case['cls'] == 'nla':
+                frag = NlaIIIFragment(reads, invert_strand=case['invert_strand'], allow_cycle_shift=case['allow_cycle_shift'])
             else:
-                if o['DS'] != want_site:
-                    out.append((f'{pre}:wrong-site-coordinate', {'obs': o, 'want_DS': want_site}))
-                if o['RS'] is None or bool(o['RS']) != want_rs:
-                    out.append((f'{pre}:wrong-strand-tag', {'obs': o, 'want_RS': want_rs}))
-                if case['variant'] == 'exact' and case['check_motif'] and o['RZ'] != 'CATG':
-                    out.append((f'{pre}:wrong-recognised-sequence', o))
-                if o['qcfail']:
-                    out.append((f'{pre}:valid-fragment-flagged-qcfail', o))
-        else:
-            if o['valid']:
-                out.append((f'{pre}:fragment-without-motif-accepted', o))
-            if o['DS'] is not None or o['DS_after'] is not None:
-                out.append((f'{pre}:rejected-fragment-assigned-a-site', o))
-            if not o['qcfail']:
-                out.append((f'{pre}:rejected-fragment-not-flagged-qcfail', o))
-    # mirror relation (independent of the truth table)
-    f, r = obs['forward'], obs['reverse']
-    if 'exception' not in f and 'exception' not in r:
-        if f['valid'] != r['valid']:
-            out.append((f'nla:mirror:validity-differs-between-strands', obs))
-        elif f['valid'] and f['DS'] is not None and r['DS'] is not None and r['DS'] != L - 4 - f['DS']:
-            out.append((f'nla:mirror:site-not-mirrored', obs))
+                frag = CHICFragment(reads, invert_strand=case['invert_strand'])
+            o = observe(frag)
+        except Exception as ex:
+            o = {'exception': f'constructor:{type(ex).__name__}:{ex}'}
+        obs[strand] = o
+        pre = f"r1less:{case['cls']}:{strand}:R1-{case['r1']}"
+        if 'exception' in o:
+            out.append((exc_sig(pre, o), o))
+            continue
+        if case['cls'] == 'nla':
+            out += judge(pre, o, 'reject', None, None)
+    out += mirror_judge(f"r1less:{case['cls']}", obs, 4 if case['cls'] == 'nla' else 1)
     return out, obs
 
 
 # ---------------------------------------------------------------- CHIC
-def chic_forward_specs(trimmed, clip, r2mode, SITE=50):
+def chic_forward_specs(case):
     """MNase fragment on the forward strand; the ligated overhang base sits at SITE+1, so the site
     (the base adjacent to it, outside the fragment) is SITE."""
-    overhang = SITE + 1
+    site, trimmed = case['site'], case['trimmed']
+    overhang = site + 1
     start = overhang + 1 if trimmed else overhang
     seq = BG[20:20 + RLEN] if trimmed else 'T' + BG[20:20 + RLEN - 1]
-    qual = ''.join(chr(40 + i) for i in range(RLEN))
-    cig = [('M', RLEN)] if clip == 0 else [('S', clip), ('M', RLEN - clip)]
-    s1 = {'seq': seq, 'qual': qual, 'pos': start + clip, 'cigar': cig, 'reverse': False, 'unmapped': False}
-    if r2mode == 'none':
-        s2 = None
-    elif r2mode == 'proper':
-        s2 = {'seq': BG[100:100 + RLEN], 'qual': qual, 'pos': SITE + FRAG - RLEN, 'cigar': [('M', RLEN)],
-              'reverse': True, 'unmapped': False}
-    elif r2mode == 'same-strand':
-        s2 = {'seq': BG[100:100 + RLEN], 'qual': qual, 'pos': SITE + FRAG - RLEN, 'cigar': [('M', RLEN)],
-              'reverse': False, 'unmapped': False}
-    elif r2mode == 'unmapped':
-        s2 = {'seq': BG[100:100 + RLEN], 'qual': qual, 'pos': start + clip, 'cigar': [], 'reverse': False,
-              'unmapped': True}
-    return s1, s2
+    s1 = r1_spec(seq, start, tuple(case['sclip']), case['tail'])
+    return s1, r2_spec(case['r2'], site, s1)
 
 
-def chic_cases():
-    for trimmed, clip, r2mode, inv, nocig in itertools.product((True, False), range(0, 7),
-                                                               ('none', 'proper', 'same-strand', 'unmapped'),
-                                                               (False, True), (False, True)):
-        if nocig and clip > 0:
+def chic_cases(tier):
+    for trimmed, sclip, tail, r2mode, inv, nocig, lh in itertools.product(
+            (True, False), START_CLIPS, TAILS, ('none', 'proper', 'same-strand', 'unmapped'),
+            (False, True), (False, True), (True, False)):
+        if nocig and sclip[1] > 0:
             continue
         for mx in (('scCHIC384C8U3', 'scCHIC384C8U3l', 'scCHIC384C8U3se') if trimmed else (None, 'CS2C8U6', 'NLAIII384C8U3')):
+            if tier == 'quick' and mx not in ('scCHIC384C8U3', None) and (tail != 'none' or not lh):
+                continue
             for site in (50, 0):
                 if site == 0 and (inv or nocig):
                     continue
-                yield {'kind': 'chic', 'trimmed': trimmed, 'MX': mx, 'clip': clip, 'r2': r2mode, 'invert_strand': inv,
-                       'no_umi_cigar_processing': nocig, 'site': site}
-
-
-def mirror_chic(spec):
-    m = mirror_read(spec)
-    return m
+                yield {'kind': 'chic', 'trimmed': trimmed, 'MX': mx, 'sclip': list(sclip), 'tail': tail, 'r2': r2mode,
+                       'invert_strand': inv, 'no_umi_cigar_processing': nocig, 'site': site, 'lh': lh}
 
 
 def run_chic(case):
     from singlecellmultiomics.fragment import CHICFragment
     out = []
-    SITE = case.get('site', 50)
-    fwd = chic_forward_specs(case['trimmed'], case['clip'], case['r2'], SITE)
+    site = case['site']
+    fwd = chic_forward_specs(case)
     obs = {}
-    tags = {'lh': 'TA'}
+    tags = {}
+    if case['lh']:
+        tags['lh'] = 'TA'
     if case['MX'] is not None:
         tags['MX'] = case['MX']
-    for strand, specs in (('forward', fwd), ('reverse', tuple(mirror_read(s) for s in fwd))):
+    hard = case['sclip'][0] == 'H' and case['sclip'][1] > 0
+    for strand, specs in (('forward', fwd), ('reverse', mirror_pair(fwd))):
         reads = build_pair(specs, tags)
         try:
             frag = CHICFragment(reads, invert_strand=case['invert_strand'],
@@ -272,49 +630,178 @@ def run_chic(case):
         except Exception as ex:
             o = {'exception': f'constructor:{type(ex).__name__}:{ex}'}
         obs[strand] = o
-        cls = 'clipped' if case['clip'] else 'unclipped'
-        pre = f"chic:{strand}:{'trimmed' if case['trimmed'] else 'untrimmed'}:{cls}"
+        pre = f"chic:{strand}:{'trimmed' if case['trimmed'] else 'untrimmed'}:{clip_class(case)}"
         if 'exception' in o:
-            out.append((f'{pre}:exception:{o["exception"].split(":")[0]}:{o["exception"].split(":")[1]}', o))
+            out.append((exc_sig(pre, o), o))
             continue
-        if case['r2'] == 'same-strand':
-            continue     # validity of mis-oriented pairs is only compared between strands (mirror relation)
-        want_site = SITE if strand == 'forward' else L - 1 - SITE
+        if hard:
+            continue
+        want_site = site if strand == 'forward' else L - 1 - site
         want_rs = (strand == 'reverse') != case['invert_strand']
+        if case['r2'] == 'same-strand':
+            # validity of mis-oriented pairs is open; an accepted one must carry the right site, a rejected one none
+            if o['valid']:
+                out += judge(pre, o, 'either', want_site, want_rs)
+            elif o['DS'] is not None or o['DS_after'] is not None or any(d is not None for d in o['DS_after_reads']):
+                out.append((f'{pre}:rejected-fragment-assigned-a-site', o))
+            continue
         if not o['valid']:
             out.append((f'{pre}:fragment-rejected', o))
         else:
-            if o['DS'] != want_site:
-                out.append((f'{pre}:wrong-site-coordinate', {'obs': o, 'want_DS': want_site}))
-            if o['RS'] is None or bool(o['RS']) != want_rs:
-                out.append((f'{pre}:wrong-strand-tag', {'obs': o, 'want_RS': want_rs}))
-    f, r = obs['forward'], obs['reverse']
-    if 'exception' not in f and 'exception' not in r:
-        if f['valid'] != r['valid']:
-            out.append(('chic:mirror:validity-differs-between-strands', obs))
-        elif f['valid'] and f['DS'] is not None and r['DS'] is not None and r['DS'] != L - 1 - f['DS']:
-            out.append(('chic:mirror:site-not-mirrored', obs))
+            out += judge(pre, o, 'accept', want_site, want_rs)
+    out += mirror_judge('chic', obs, 1)
     return out, obs
 
 
+# ---------------------------------------------------------------- dedup: equality of fragments
+DEDUP_SHAPES = ((('S', 0), 'none'), (('S', 3), 'none'), (('S', 0), 'S3'), (('S', 6), 'none'), (('S', 2), 'D2'))
+
+
+def dedup_members(cls, acs):
+    """descriptors of the fragments of one family (forward orientation)"""
+    sites = (50, 51)
+    if cls == 'nla':
+        variants = ('exact', 'shift') if acs else ('exact',)
+        for site, opp, variant, (sclip, tail), r2 in itertools.product(sites, (False, True), variants, DEDUP_SHAPES, ('none', 'proper')):
+            yield {'site': site, 'opp': opp, 'variant': variant, 'sclip': list(sclip), 'tail': tail, 'r2': r2}
+    else:
+        for site, opp, trimmed, (sclip, tail), r2 in itertools.product(sites, (False, True), (True, False), DEDUP_SHAPES, ('none', 'proper')):
+            yield {'site': site, 'opp': opp, 'trimmed': trimmed, 'sclip': list(sclip), 'tail': tail, 'r2': r2}
+
+
+def dedup_cfgs():
+    for inv, acs, allele in ((False, False, False), (True, False, False), (False, True, False), (False, False, True), (True, True, True)):
+        yield {'cls': 'nla', 'invert_strand': inv, 'allow_cycle_shift': acs, 'use_allele_tag': allele}
+    for inv in (False, True):
+        yield {'cls': 'chic', 'invert_strand': inv, 'allow_cycle_shift': False, 'use_allele_tag': False}
+    # a non-zero assignment radius must neither separate the copies of one cut nor break the symmetry
+    yield {'cls': 'chic', 'invert_strand': False, 'allow_cycle_shift': False, 'use_allele_tag': False, 'assignment_radius': 2}
+
+
+def dedup_build(cfg, m, orientation):
+    """the fragment of member m; members with opp=True lie on the other strand and have the SAME site coordinate"""
+    from singlecellmultiomics.fragment import NlaIIIFragment, CHICFragment
+    span = 4 if cfg['cls'] == 'nla' else 1
+    site = (L - span - m['site']) if m['opp'] else m['site']
+    if cfg['cls'] == 'nla':
+        case = {'variant': m['variant'], 'motif': 'CATG', 'site': site, 'sclip': m['sclip'], 'tail': m['tail'], 'r2': m['r2']}
+        specs = nla_forward_specs(case)
+        tags = {'DA': 'a'} if cfg['use_allele_tag'] else {}      # every copy carries the same allele
+    else:
+        case = {'trimmed': m['trimmed'], 'site': site, 'sclip': m['sclip'], 'tail': m['tail'], 'r2': m['r2']}
+        specs = chic_forward_specs(case)
+        tags = {'lh': 'TA'}
+        if m['trimmed']:
+            tags['MX'] = 'scCHIC384C8U3'
+    if m['opp']:
+        specs = mirror_pair(specs)
+    if orientation == 'reverse':
+        specs = mirror_pair(specs)
+    reads = build_pair(specs, tags)
+    if cfg['cls'] == 'nla':
+        return NlaIIIFragment(reads, invert_strand=cfg['invert_strand'], allow_cycle_shift=cfg['allow_cycle_shift'],
+                              use_allele_tag=cfg['use_allele_tag'])
+    kw = {'assignment_radius': cfg['assignment_radius']} if 'assignment_radius' in cfg else {}
+    return CHICFragment(reads, invert_strand=cfg['invert_strand'], **kw)
+
+
+def dedup_eval(cfg, a, b, frags=None):
+    """-> (violations, obs); frags: optional cache {(orientation, index)} is NOT used for replay"""
+    out = []
+    obs = {}
+    same_cut = a['site'] == b['site'] and a['opp'] == b['opp']
+    pre = f"dedup:{cfg['cls']}"
+    for orientation in ('forward', 'reverse'):
+        try:
+            fa = dedup_build(cfg, a, orientation)
+            fb = dedup_build(cfg, b, orientation)
+            va, vb = bool(fa.is_valid()), bool(fb.is_valid())
+            ab, ba = bool(fa == fb), bool(fb == fa)
+        except Exception as ex:
+            obs[orientation] = {'exception': f'{type(ex).__name__}:{ex}'}
+            out.append((f'{pre}:{orientation}:exception:{type(ex).__name__}', obs[orientation]))
+            continue
+        obs[orientation] = {'valid': [va, vb], 'eq': [ab, ba], 'hash': [list(fa.match_hash) if fa.match_hash else None,
+                                                                       list(fb.match_hash) if fb.match_hash else None]}
+        if not (va and vb):
+            out.append((f'{pre}:{orientation}:fragment-with-motif-rejected', obs[orientation]))
+            continue
+        if ab != ba:
+            out.append((f'{pre}:{orientation}:equality-not-symmetric', obs[orientation]))
+        if same_cut and not (ab and ba):
+            out.append((f'{pre}:{orientation}:copies-of-one-cut-not-equal', obs[orientation]))
+    f, r = obs.get('forward', {}), obs.get('reverse', {})
+    if 'eq' in f and 'eq' in r and f['eq'] != r['eq']:
+        out.append((f'{pre}:mirror:orientations-deduplicate-differently', obs))
+    return out, obs
+
+
+def dedup_pairs(cfg):
+    members = list(dedup_members(cfg['cls'], cfg['allow_cycle_shift']))
+    for i in range(len(members)):
+        for j in range(i, len(members)):
+            yield i, j, members[i], members[j]
+
+
 # ---------------------------------------------------------------- engine interface
+N_NLA, N_CHIC, N_REF, N_DEDUP = 32, 12, 4, 4
+
+
 def shards(tier):
-    return [('nla', i, 16) for i in range(16)] + [('chic', i, 4) for i in range(4)]
+    s = [('nla', i, N_NLA) for i in range(N_NLA)] + [('chic', i, N_CHIC) for i in range(N_CHIC)]
+    s += [('nlaref', i, N_REF) for i in range(N_REF)] + [('r1less', 0, 1)]
+    for c, cfg in enumerate(dedup_cfgs()):
+        s += [('dedup', (c, i), N_DEDUP) for i in range(N_DEDUP)]
+    return s
+
+
+GEN = {'nla': nla_cases, 'chic': chic_cases, 'nlaref': nlaref_cases, 'r1less': r1less_cases}
+RUN = {'nla': run_nla, 'chic': run_chic, 'nlaref': run_nlaref, 'r1less': run_r1less}
+
+
+def _label(kind, case, obs):
+    fv, rv = obs['forward'].get('valid'), obs['reverse'].get('valid')
+    if kind == 'nla':
+        return f"nla:{vclass_of(case['variant'])}:{clip_class(case)}:tail={case['tail']}:r2={'same-strand' if case['r2'] == 'same-strand' else 'std'}:fv={fv}:rv={rv}"
+    if kind == 'chic':
+        return f"chic:{'trimmed' if case['trimmed'] else 'untrimmed'}:{clip_class(case)}:tail={case['tail']}:r2={case['r2']}:fv={fv}:rv={rv}"
+    if kind == 'nlaref':
+        v = case['variant'] if not case['variant'].startswith('subst') else 'substitution'
+        return f"nlaref:{v}:pos={case['pos']}:adjacent={case['gap'] == 0 and case['clip'] == 0}:fv={fv}:rv={rv}"
+    return f"r1less:{case['cls']}:R1-{case['r1']}:R2-{case['r2']}:fv={fv}:rv={rv}"
 
 
 def run_shard(shard, tier, acc):
     kind, i, n = shard
-    gen = nla_cases() if kind == 'nla' else chic_cases()
-    for j, case in enumerate(gen):
+    if kind == 'dedup':
+        c, i = i
+        cfg = list(dedup_cfgs())[c]
+        for k, (ia, ib, a, b) in enumerate(dedup_pairs(cfg)):
+            if k % n != i:
+                continue
+            case = {'kind': 'dedup', 'cfg': cfg, 'a': a, 'b': b}
+            viols, obs = dedup_eval(cfg, a, b)
+            same = a['site'] == b['site'] and a['opp'] == b['opp']
+            lab = f"dedup:{cfg['cls']}:same-cut={same}:twin={a == b}:feq={obs.get('forward', {}).get('eq')}:req={obs.get('reverse', {}).get('eq')}"
+            acc.case(case, transitions=4, execs=4, nontrivial=(a != b), outcome=lab)
+            for sig, d in viols:
+                acc.violation(sig, case, d)
+        return
+    for j, case in enumerate(GEN[kind](tier)):
         if j % n != i:
             continue
-        viols, obs = (run_nla if kind == 'nla' else run_chic)(case)
-        nontriv = case['clip'] > 0 or case.get('variant', 'exact') != 'exact' or case.get('r2') in ('same-strand', 'unmapped')
-        lab = f"{kind}:{case.get('variant', case.get('trimmed'))}:fv={obs['forward'].get('valid')}:rv={obs['reverse'].get('valid')}"
-        acc.case(case, transitions=2, execs=2, nontrivial=nontriv, outcome=lab)
+        viols, obs = RUN[kind](case)
+        if kind in ('nla', 'chic'):
+            nontriv = case['sclip'][1] > 0 or case['tail'] != 'none' or case.get('variant', 'exact') != 'exact' or \
+                case.get('r2') in ('same-strand', 'unmapped')
+        else:
+            nontriv = True
+        acc.case(case, transitions=2, execs=2, nontrivial=nontriv, outcome=_label(kind, case, obs))
         for sig, d in viols:
             acc.violation(sig, case, d)
 
 
 def replay(case):
-    return (run_nla if case['kind'] == 'nla' else run_chic)(case)[0]
+    if case['kind'] == 'dedup':
+        return dedup_eval(case['cfg'], case['a'], case['b'])[0]
+    return RUN[case['kind']](case)[0]
